@@ -1909,6 +1909,9 @@ func smFixed(s *sink, g *hx.Gen, q *smGen) {
 		{"required treat-empty-as-default property holding the zero value",
 			obj(reflect.TypeOf(zmInner{}), false, np("level", &sProp{Ty: intT(), Required: true, EmptyIsDefault: true})),
 			[]*hx.Val{hx.StrAny([2]*hx.Val{hx.Str("level"), hx.Int("int64", 0)}), hx.StrAny([2]*hx.Val{hx.Str("level"), hx.Int("int64", 3)})}},
+		{"a sub-object on a pointer field is not synthesized from the defaults below it",
+			obj(reflect.TypeOf(zmMid{}), false, np("innerp", &sProp{Ty: inner("7")}), np("inner", &sProp{Ty: inner("7")})),
+			[]*hx.Val{empty, hx.StrAny([2]*hx.Val{hx.Str("innerp"), hx.StrAny()})}},
 		{"a disabled property on a plain field reads as unset while the field holds the zero value",
 			obj(reflect.TypeOf(zmInner{}), false, np("tag", &sProp{Ty: strMin1(), Disabled: true}), np("level", &sProp{Ty: intT(), RequiredIfNot: []string{"tag"}})),
 			[]*hx.Val{hx.StrAny([2]*hx.Val{hx.Str("level"), hx.Int("int64", 1)}), hx.StrAny([2]*hx.Val{hx.Str("tag"), hx.Str("x")})}},
